@@ -14,15 +14,16 @@ def PercCfg.AllOps (c : PercCfg) : Prop :=
 instance PercCfg.decAllOps (c : PercCfg) : Decidable c.AllOps := by unfold PercCfg.AllOps; exact inferInstance
 
 /-- configuration with good operators and the given flags -/
-def PercCfg.ofFlags (gR gL sR sL sK cR rO tG : Bool) : PercCfg :=
+def PercCfg.ofFlags (gR gL sR sL sK cR rO tG pK : Bool) : PercCfg :=
   { getSkipsRollback := gR, getSkipsLock := gL, scanSkipsRollback := sR, scanSkipsLock := sL,
     scanSeesLockOnlyKeys := sK, getLockOp := .ge, scanLockOp := .ge, getTsOp := .le, scanVerOp := .gt,
     commitChecksRollback := cR, conflictOp := .ge, rollbackChecksOwner := rO, ttlOp := .ge,
-    ttlOverflowGuard := tG, minCommitOp := .gt }
+    ttlOverflowGuard := tG, minCommitOp := .gt, prewriteKeepsOwnLock := pK }
 
 theorem PercCfg.eq_ofFlags (c : PercCfg) (h : c.AllOps) :
     c = PercCfg.ofFlags c.getSkipsRollback c.getSkipsLock c.scanSkipsRollback c.scanSkipsLock
-      c.scanSeesLockOnlyKeys c.commitChecksRollback c.rollbackChecksOwner c.ttlOverflowGuard := by
+      c.scanSeesLockOnlyKeys c.commitChecksRollback c.rollbackChecksOwner c.ttlOverflowGuard
+      c.prewriteKeepsOwnLock := by
   obtain ⟨h1, h2, h3, h4, h5, h6, h7⟩ := h
   cases c
   simp only at h1 h2 h3 h4 h5 h6 h7
